@@ -8,6 +8,7 @@ import (
 	sdk "github.com/cosmos/cosmos-sdk/types"
 	capabilitytypes "github.com/cosmos/cosmos-sdk/x/capability/types"
 	icatypes "github.com/cosmos/ibc-go/v7/modules/apps/27-interchain-accounts/types"
+	host "github.com/cosmos/ibc-go/v7/modules/core/24-host"
 
 	types "github.com/regen-network/regen-ledger/x/intertx/types/v1"
 	zz "github.com/regen-network/regen-ledger/x/intertx/zzverif"
@@ -57,10 +58,22 @@ func VerifHarness_C20_SubmitTx() {
 		zz.CallArg(i, 5, &timeout)
 		want := blockTime.UnixNano() + 60_000_000_000
 		zz.Assert(timeout == uint64(want), "C20 the timeout is one minute after block time")
+		// nothing is sent unless both lookups reported found, and the capability used is the
+		// one that was looked up
+		var chFound, capFound bool
+		zz.CallRet(li, 1, &chFound)
+		ci := zz.CallIndex("cap.GetCapability", 0)
+		zz.CallRet(ci, 1, &capFound)
+		zz.Assert(chFound, "C20 nothing is sent when no active channel exists")
+		zz.Assert(capFound, "C20 nothing is sent when the channel capability does not exist")
 		var usedCap, gotCap *capabilitytypes.Capability
 		zz.CallArg(i, 1, &usedCap)
-		_ = gotCap
-		zz.Assert(usedCap != nil, "C20 the send uses a capability")
+		zz.CallRet(ci, 0, &gotCap)
+		zz.Assert(zz.And(usedCap != nil, zz.SameObject(usedCap, gotCap)), "C20 the send uses the capability that was looked up")
+		var chanID, capName string
+		zz.CallRet(li, 0, &chanID)
+		zz.CallArg(ci, 1, &capName)
+		zz.Assert(zz.StrEq(capName, host.ChannelCapabilityPath(wantPort, chanID)), "C20 the capability looked up is that of the owner's port and the active channel")
 		zz.Reach("sent")
 	} else {
 		zz.Assert(err != nil, "C20 when nothing is sent the message fails")
